@@ -54,7 +54,12 @@ P = {'id': 'C18',
              'spec-only cells (direct oracle, no mechanism model): the running executor on current-thread and multi-thread tokio runtimes, one queue under '
              'OS threads, BatchCollector with its background timeout checker on two threads, CooperativeUtils::*, '
              'YieldingIterator, FiberIoUtils::*, AsyncMemoryBlobStore::put_batch/get_batch; panicking stage functions in process_batch / execute_single '
-             '(the panic propagates to the caller)',
+             '(the panic propagates to the caller); oracle breadth (harness/src/c18_wide*.rs, no mechanism model): the queue / executor cells with '
+             'ClosureTask, submit_closure and a Task with the trait\'s default methods; executor lifecycles (waves, shutdown, submissions after it); the '
+             'process-wide executor (init_concurrency / global); histories of many operations on one FiberPool, one Pipeline and one blob store (presets, '
+             'builders, FilterStage, abort, unit / String / byte items, file and compressed stores); big inputs around the internal limits (16 / 32 / 255 '
+             'yield budget, 100 / 1000 / 10000 pipeline defaults, 4096, 2^16, the CPU count); the yield points (liveness only); FiberAio whole-file '
+             'helpers as processors of process_files_parallel; spawn_blocking / Fiber / abort',
              'hook (repo commit `hook: paused WorkStealingExecutor ...`, cfg zipora_verif, add-only): verif_new_paused / verif_find_task / verif_balance / '
              'verif_queue_lens let the harness drive the real submit/find_task/balance in enumerated interleavings and see where submit put a task; '
              'without the hook that cell is skipped',
